@@ -657,9 +657,21 @@ def _struct_wire_split(text, undriven_msgs):
     mm = re.search(r"variable '([\w.]+)'", m)
     if mm:
       names.add(mm.group(1).split(".")[-1])
-  if not names:
-    return ""
   decl = set(re.findall(r"^\s*(?:input|output)?\s*logic\s*(?:\[[^\]]+\]\s*)*(\w+)", text, re.M))
+  if not names:
+    # second form of the same defect: a struct WIRE whose whole `W` and whose field `W__f` are BOTH written
+    # (whole-then-field override in one block): two unconnected variables, the field write is lost for
+    # readers of the whole.  Recognised when no assign connects W with its fields.
+    written = set(re.findall(r"^\s*(\w+)(?:\[[^=]*\])?\s*<?=(?!=)", text, re.M))
+    for w in sorted(decl):
+      fields = [d for d in decl if d.startswith(w + "__")]
+      if not fields or w not in written or not any(f in written for f in fields):
+        continue
+      if re.search(r"assign\s+%s\[[^\]]*\]\s*=\s*%s__" % (re.escape(w), re.escape(w)), text) or \
+         re.search(r"assign\s+%s__\w+\s*=\s*%s\[" % (re.escape(w), re.escape(w)), text):
+        continue
+      return w
+    return ""
   for u in sorted(names):
     parts = u.split("__")
     for k in range(1, len(parts)):
